@@ -34,7 +34,8 @@ func (self *Compiler) popScope() {
 }
 
 func (self *Compiler) mangleFn(input string) string {
-	mangled := fmt.Sprintf("@%s_%s", self.currModule, input)
+	// The separator occurs in no identifier: `b_f` of module `a` and `f` of module `a_b` get different names.
+	mangled := fmt.Sprintf("@%s.%s", self.currModule, input)
 	return mangled
 }
 
